@@ -220,6 +220,7 @@ class Scenario:
         self.n_injected = 0
         for op in case["ops"]:
             k = op[0]
+            if self.peer_fin and k in ("hs", "pw", "pc", "junk", "tc"): continue
             if k == "hs":
                 flights = op[1]
                 for i in range(6):
@@ -274,7 +275,7 @@ class Scenario:
             elif k == "tc":
                 self.deliver([], hold=False)
                 self.step(["C"], self.tcp_close)
-                break
+                self.peer_fin = True            # the peer has half-closed: it sends nothing more, but still reads what we write
             elif k == "cx":
                 n = n_do; n_do += 1
                 self.child_rules["o%d" % n] = "x"
@@ -285,6 +286,7 @@ class Scenario:
 
     premature_send = False
     junk = False
+    peer_fin = False
 
     def recv(self, data):
         """bytes from the peer; like tcp_close: server.py's reader keeps reading after the TLS layer cleared CAN_READ on close_notify"""
@@ -315,7 +317,8 @@ class Check(PropertyCheck):
                   "plaintext of ALL bytes received, fed = all bytes received), child_stream_complete (a segment whose recv loop ends normally leaves the child "
                   "with the COMPLETE plaintext of the connection so far), peer_stream_exact (emitted ciphertext = engine output, and the peer's reading of it = "
                   "the concatenation of the child's accepted SendData payloads), close_last (when a segment makes close_notify visible the child gets the rest of "
-                  "the data, then exactly one ConnectionClosed, and then holds the complete plaintext of the connection). Proved by an inductive invariant over "
+                  "the data, then exactly one ConnectionClosed, and then holds the complete plaintext of the connection), send_after_half_close (tunnel level: the peer's "
+                  "TCP close sets CLOSED, and a SendData of the child in that state is still encrypted and forwarded; peer's reading = accepted payloads). Proved by an inductive invariant over "
                   "histories (queue discipline QG, crash monotonicity, engine-vs-layer ghost invariant TG). Plus the per-call theorems child_receives_exactly, "
                   "client_receives_exactly, close_after_data, queued_during_handshake_in_order for arbitrary states. Model tied to the real layers + real "
                   "TlsConfig + real OpenSSL by scenario runs compared step by step (child events with chunk boundaries, decrypted plaintext, closes/opens/hooks, "
@@ -342,7 +345,7 @@ class Check(PropertyCheck):
     technique = "Lean 4 proof (model of the tunnel/TLS layers, parametric in a lawful codec; inductive invariant over all event histories; induction over the recv/bio_read loops and the event queue) + real-OpenSSL scenario correspondence"
     rule = ("scenario = side (ClientTLSLayer / ServerTLSLayer opened by the child / ServerTLSLayer on an open connection) x handshake flights cut into "
             "segments (incl. tail held back so application data follows Finished in one segment) x peer writes of record sizes 1..16384 cut anywhere "
-            "(inside records, across writes) x child sends interleaved x unrelated events x close_notify / TCP close / child close. distinct = distinct "
+            "(inside records, across writes) x child sends interleaved x unrelated events x close_notify / TCP close (then further child sends towards the half-closed peer) / child close. distinct = distinct "
             "scenario; non-trivial = handshake completed and application data flowed.")
     budget = {"quick": 160, "thorough": 5000}
     time_budget = {"quick": 35, "thorough": 600}
@@ -375,6 +378,10 @@ class Check(PropertyCheck):
             yield {"side": side, "ops": [["cs", 10], ["hs", [[], []], 0], ["tc"]]} if side == "never" else {"side": side, "ops": [["ot"], ["hs", [[0.2], [0.7]], 0], ["pw", [4096] * 5, [0.1, 0.2, 0.21, 0.8], 0], ["tc"]]}
             yield {"side": side, "ops": [["hs", [[0.4]], 0], ["tc"]]}
             yield {"side": side, "ops": [["tc"]]}
+            # the peer half-closes (close_notify + FIN, or a bare FIN); what the inner layer sends afterwards must still reach it
+            yield {"side": side, "ops": [["hs", [[], []], 0], ["pw", [100], [], 0], ["pc", []], ["tc"], ["cs", 50], ["cs", 20000]]}
+            yield {"side": side, "ops": [["hs", [[], []], 0], ["tc"], ["cs", 7]]}
+            yield {"side": side, "ops": [["hs", [[0.3], [0.6]], 1], ["pw", [17], [0.5], 0], ["tc"], ["cs", 100], ["ot"], ["cs", 1], ["cx"]]}
             yield {"side": side, "ops": [["hs", [[0.4]], 0], ["pw", [10], [], 0], ["junk"]]}
             yield {"side": side, "ops": [["hs", [[0.4], []], 1], ["junk"]]}
         while True:
@@ -394,7 +401,11 @@ class Check(PropertyCheck):
             if rng.chance(0.3): ops.append(["cs", rng.randint(1, 3000)])
             if rng.chance(0.12): ops.insert(rng.randint(1, len(ops)), ["junk"])
             r = rng.random()
-            if r < 0.35: ops.append(["tc"])
+            if r < 0.35:
+                ops.append(["tc"])
+                for _ in range(rng.randint(0, 3)):
+                    ops.append(["cs", rng.pick(SIZES) if rng.chance(0.7) else rng.randint(1, 20000)] if rng.chance(0.8) else ["ot"])
+                if rng.chance(0.3): ops.append(["cx"])
             elif r < 0.5: ops.append(["cx"])
             yield {"side": rng.pick(sides), "ops": ops}
 
